@@ -327,4 +327,89 @@ theorem parallax_zero_item_partial (F : Fourier ℝ) (geo : Geometry ℝ)
       (comb geo.u geo.r geo.c (meanSub (stack.getD (geo.mapping.getD i 0) []))).map (· / geo.W) :=
   prlx_item_zero F geo hcomb hlen hinv henv stack i hm hvl qx qy hqx hqy hK power
 
+/-! ## call histories: the result is a function of the effective hyper-parameters only
+
+In the model the reconstruction of a step is computed from `effective neg zero st s` (the aberration set
+and rotation `reconstruct` resolves through `HyperparameterState`) and from nothing else of the object's
+past; so history-independence is: the stored state after a history depends on the object's initial
+hyper-parameters and on the last fixed-value grid search only, and per-call overrides never persist.
+The real `HyperparameterState` is compared with this state machine after every step of every history
+(exact stream `hyperparameter-state`), and every call of a history is compared with a fresh object. -/
+
+/-- a `reconstruct` call, whatever it overrides, leaves the stored hyper-parameters untouched -/
+theorem call_preserves_state {α ρ : Type} (neg : α → α) (st : HState α ρ) (ab : Option (Dict α)) (rot : Option ρ) :
+    stepState neg st (.call ab rot) = st := rfl
+
+/-- nothing ever rewrites the initial hyper-parameters -/
+theorem initial_never_changes {α ρ : Type} (neg : α → α) (st : HState α ρ) (h : List (Step α ρ)) :
+    (runHistory neg st h).initialAb = st.initialAb ∧ (runHistory neg st h).initialRot = st.initialRot := by
+  unfold runHistory
+  induction h generalizing st with
+  | nil => exact ⟨rfl, rfl⟩
+  | cons s t ih =>
+    simp only [List.foldl_cons]
+    obtain ⟨a, b⟩ := ih (stepState neg st s)
+    obtain ⟨c, d⟩ := stepState_initial neg st s
+    exact ⟨a.trans c, b.trans d⟩
+
+/--
+**History independence.** After *any* history of calls (with arbitrary per-call overrides) and
+fixed-value grid searches, the object is in the state determined by its initial hyper-parameters and
+the last grid search alone (`stateOf`): with no grid search it is the fresh object.
+-/
+theorem history_independent {α ρ : Type} (neg : α → α) (st : HState α ρ) (h : List (Step α ρ)) :
+    runHistory neg st h = stateOf neg st (lastGrid h) :=
+  runHistory_aux neg st h none
+
+/-- hence every step after two histories with the same last grid search resolves the same hyper-parameters,
+and after override-only histories the same as on a fresh object -/
+theorem effective_history_independent {α ρ : Type} (neg : α → α) (zero : ρ) (st : HState α ρ)
+    (h₁ h₂ : List (Step α ρ)) (hg : lastGrid h₁ = lastGrid h₂) (s : Step α ρ) :
+    effective neg zero (runHistory neg st h₁) s = effective neg zero (runHistory neg st h₂) s := by
+  rw [history_independent, history_independent, hg]
+
+theorem effective_after_overrides_is_fresh {α ρ : Type} (neg : α → α) (zero : ρ) (st : HState α ρ)
+    (h : List (Step α ρ)) (hc : ∀ s ∈ h, ∃ ab rot, s = Step.call ab rot) (s : Step α ρ) :
+    effective neg zero (runHistory neg st h) s = effective neg zero st s := by
+  have : lastGrid h = none := by
+    unfold lastGrid
+    suffices H : ∀ g, h.foldl (fun acc (s : Step α ρ) => match s with
+        | .grid a r => some (a, r)
+        | .call _ _ => acc) g = g from H none
+    induction h with
+    | nil => intro g; rfl
+    | cons x t ih =>
+      intro g
+      obtain ⟨ab, rot, rfl⟩ := hc _ List.mem_cons_self
+      simp only [List.foldl_cons]
+      exact ih (fun s hs => hc s (List.mem_cons_of_mem _ hs)) g
+  rw [history_independent, this]
+  rfl
+
+/-- a rotation that is given is used, whatever its value (in particular exactly zero); the optimized one
+takes precedence over the initial one in the same way -/
+theorem given_rotation_wins {α ρ : Type} (zero : ρ) (st : HState α ρ) (r : ρ) :
+    currentRotation zero st (some r) = r ∧
+    (st.optimizedRot = some r → currentRotation zero st none = r) ∧
+    (st.optimizedRot = none → st.initialRot = some r → currentRotation zero st none = r) := by
+  refine ⟨rfl, ?_, ?_⟩
+  · intro h; simp [currentRotation, h]
+  · intro h1 h2; simp [currentRotation, h1, h2]
+
+/-- every coefficient the (canonicalised) override mentions takes the override's last value — whatever that
+value is — and every other coefficient keeps its stored value -/
+theorem override_coefficient_wins {α ρ : Type} (neg : α → α) (st : HState α ρ) (o c out : Dict α)
+    (hc : canonicalize neg o = .ok c) (ho : currentAberrations neg st (some o) = .ok out) (k : String) :
+    out.get? k = match lastVal c k with
+      | some v => some v
+      | none => (st.initialAb.update st.optimizedAb).get? k := by
+  unfold currentAberrations at ho
+  simp only [hc] at ho
+  cases ho
+  exact Dict.get?_update _ c k
+
+example : canonicalize (fun x : Int => -x) [("defocus", 5), ("C12", 0), ("astigmatism_angle", 2)] =
+      .ok [("C10", -5), ("C12", 0), ("phi12", 2)] ∧
+    canonicalize (fun x : Int => -x) [("focus", 1)] = .error .valueError := by decide
+
 end QuantemModel.Props.C04
